@@ -280,3 +280,64 @@ Definition mbox_view (c : config) (name : str) : Z * list (Z * Z) :=
                map (fun l => (lk_uid l, owner_of (lk_msg l) 0 (c_threads c)))
                    (links_sorted (c_store c) (mb_id m)))
   end.
+
+(** ---- grants: the granularity at which the correspondence suite can hold the
+    implementation (an SQLite authorizer stops a session before the statements
+    C = INSERT mailboxes, R = SELECT uid_next, U = UPDATE uid_next,
+    I = INSERT message_mailbox).  One grant lets a thread run to its next gate:
+    one or two micro-steps. ---------------------------------------------------------- *)
+
+Definition at_gate (th : thread) : bool :=
+  match t_st th with SLookup | SStore _ | SAtomic => false | _ => true end.
+
+Definition thread_at (c : config) (i : tid) : option thread := nth_error (c_threads c) i.
+
+(** micro-steps of one grant to thread [i] *)
+Definition grant_steps (c : config) (i : tid) : list tid :=
+  match thread_at (sched_step c i) i with
+  | Some th => if at_gate th then [i] else [i; i]
+  | None => [i]
+  end.
+
+(** where the thread stands after the grant: 1 C, 2 R, 3 U, 4 I, 5 replied *)
+Definition gate_code (th : thread) : Z :=
+  match t_st th with
+  | SCreate => 1 | SRead _ _ => 2 | SUpdate _ _ _ => 3 | SInsert _ _ _ => 4
+  | SOk _ _ _ | SFail _ | SRan _ => 5
+  | _ => 0
+  end.
+
+Fixpoint run_grants (gs : list tid) (c : config) : config * list tid * list Z :=
+  match gs with
+  | [] => (c, [], [])
+  | i :: r =>
+      let steps := grant_steps c i in
+      let c1 := run_sched steps c in
+      let code := match thread_at c1 i with Some th => gate_code th | None => 5 end in
+      let '(c2, ms, tr) := run_grants r c1 in
+      (c2, steps ++ ms, code :: tr)
+  end.
+
+Definition class_code (k : option c08class) : Z :=
+  match k with None => 0 | Some UidNextRace => 1 | Some CreateRace => 2 end.
+
+Definition zlist_eqb (a b : list Z) : bool :=
+  Nat.eqb (length a) (length b) && forallb (fun '(x, y) => x =? y) (combine a b).
+Definition view_eqb (a b : Z * list (Z * Z)) : bool :=
+  (fst a =? fst b) && zlist_eqb (map fst (snd a)) (map fst (snd b))
+  && zlist_eqb (map snd (snd a)) (map snd (snd b)).
+
+(** one correspondence case: folder pre-created?, folder, programs, grants,
+    observed (reply codes, gate trace, view of the folder).
+    Result: (1 iff model = observation, finding class of the schedule,
+             the model's reply codes, the model's uid_next) *)
+Definition gated_case := (bool * str * list prog * list tid * (list Z * list Z * (Z * list (Z * Z))))%type.
+
+Definition eval_gated (k : gated_case) : Z * Z * list Z * Z :=
+  let '(ex, f, ps, gs, (o_rep, o_tr, o_view)) := k in
+  let s0 := if ex then fst (op_create (init 0) f 0) else init 0 in
+  let '(c, ms, tr) := run_grants gs (init_cfg s0 ps) in
+  let rep := map reply_code (c_threads c) in
+  let v := mbox_view c f in
+  ((if zlist_eqb rep o_rep && zlist_eqb tr o_tr && view_eqb v o_view then 1 else 0),
+   class_code (classify s0 ps ms), rep, fst v).
